@@ -18,6 +18,11 @@ class KGChar(str):
     pass
 
 
+def _kg_reduce(ufunc, a):
+    """ufunc.reduce(a) that, like the Over adverb, returns an empty operand unchanged."""
+    return a if getattr(a, 'size', 1) == 0 else ufunc.reduce(a)
+
+
 class NumpyBackendProvider(BackendProvider):
     """NumPy-based backend provider."""
 
@@ -110,7 +115,7 @@ class NumpyBackendProvider(BackendProvider):
 
         param_names = list(self._collect_params(ir))
         fn_source = f"def _expr({', '.join(param_names)}): return {source}"
-        ns = {'np': np}
+        ns = {'np': np, '_kg_reduce': _kg_reduce}
         try:
             exec(fn_source, ns)
         except Exception:
@@ -160,10 +165,10 @@ class NumpyBackendProvider(BackendProvider):
             arg_src = self._ir_to_source(arg)
             if arg_src is None:
                 return None
-            method = {'+': 'np.add.reduce', '*': 'np.multiply.reduce', '|': 'np.maximum.reduce', '&': 'np.minimum.reduce'}.get(op)
-            if method is None:
+            ufunc = {'+': 'np.add', '*': 'np.multiply', '|': 'np.maximum', '&': 'np.minimum'}.get(op)
+            if ufunc is None:
                 return None
-            return f'{method}({arg_src})'
+            return f'_kg_reduce({ufunc},{arg_src})'
 
         if node_type == 'scan':
             op, arg = ir[1], ir[2]
